@@ -14,10 +14,14 @@ histories for a failing input and reports the violation either way).
 namespace SaoVerif
 
 theorem C03_decision_skeleton_as_modelled :
-    Generated.Skel.x_node_keeper_hooks_go = Expected.Skel.x_node_keeper_hooks_go ∧
-    Generated.Skel.app_app_go = Expected.Skel.app_app_go ∧
-    Generated.Skel.x_node_keeper_super_go = Expected.Skel.x_node_keeper_super_go ∧
-    Generated.Skel.x_sao_keeper_keeper_go = Expected.Skel.x_sao_keeper_keeper_go := by
+    [Generated.Skel.x_node_keeper_hooks_go,
+     Generated.Skel.app_app_go,
+     Generated.Skel.x_node_keeper_super_go,
+     Generated.Skel.x_sao_keeper_keeper_go] =
+    [Expected.Skel.x_node_keeper_hooks_go,
+     Expected.Skel.app_app_go,
+     Expected.Skel.x_node_keeper_super_go,
+     Expected.Skel.x_sao_keeper_keeper_go] := by
   decide +kernel
 
 end SaoVerif
